@@ -18,6 +18,34 @@ def load_grammar() -> str:
     return (_here / "ode.lark").read_text()
 
 
+class CommentFilter:
+    """Drop comments written where no statement can end: inside parentheses
+    (a ``states(...)`` / ``parameters(...)`` block or a header spread over several
+    lines, a parenthesised sub-expression) and directly after an operator, ``=`` or
+    ``,`` (an expression continued on the next line). Such a comment cannot annotate
+    an assignment, so it carries no meaning; the grammar only knows comments
+    between statements and at the end of an assignment."""
+
+    always_accept = ("COMMENT_LINE",)
+    _open = frozenset({"=", ",", "+", "-", "*", "/", "**", "~"})
+
+    def process(self, stream):
+        depth = 0
+        previous = None
+        for token in stream:
+            if token.type == "COMMENT_LINE":
+                if depth > 0 or previous in self._open:
+                    continue
+            elif token.type != "NEWLINE":
+                previous = str(token)
+                if previous == "(":
+                    depth += 1
+                elif previous == ")":
+                    depth = max(depth - 1, 0)
+            yield token
+
+
 class Parser(Lark):
     def __init__(self, *args, **kwargs) -> None:
+        kwargs.setdefault("postlex", CommentFilter())
         super().__init__(load_grammar(), *args, **kwargs)
